@@ -171,6 +171,10 @@ def VData.setAllZ0 (c : Cfg V F) (s : VData V F) (z : V) : VData V F × Res Unit
 
 /-- `vnadata_init` -/
 def VData.init (c : Cfg V F) (s : VData V F) (type rows cols freqs : Int) : VData V F × Res Unit :=
+  -- the arguments are checked before anything is reset: a refused call leaves the object as it was
+  if rows < 0 ∨ cols < 0 ∨ freqs < 0 then (s, .fail .EINVAL)
+  else if ¬ validateType type rows.toNat cols.toNat then (s, .fail .EINVAL)
+  else
   let (s, r1) := s.resize c 0 0 0 0
   match r1 with
   | .ub w => (s, .ub w)
